@@ -13,12 +13,22 @@ from simcore.ctx import Excluded
 from simcore.seeds import stream
 
 
-def make_data(seed_vals, n, dim, k, spread=1.0, shift=0.0, unl=0.0, centres=None):
+def make_data(seed_vals, n, dim, k, spread=1.0, shift=0.0, unl=0.0, centres=None, lattice=None, learn=False):
     rng = np.random.RandomState(seed_vals % (2 ** 31))
     cent = np.array(centres) if centres is not None else rng.uniform(0, 1, (k, dim))
     y = rng.randint(0, k, n)
-    X = cent[y] + rng.normal(0, 0.08, (n, dim))
+    X = cent[y] + rng.normal(0, 0.08 if lattice is None else 0.2, (n, dim))
     X = np.round(X * spread + shift, 6)
+    if lattice is not None:
+        # whole-number features 0..L: the learned range is [0, L] in every dimension, so the value L/2 scales to exactly 0.5 - a
+        # grid line of every component grid - and the range ends to the outermost positions
+        X = np.round(X * lattice)
+        if learn:
+            X = np.clip(X, 0, lattice)
+            X[0, :] = 0.0
+            X[1, :] = float(lattice)
+            y = y.copy()
+            y[0], y[1] = 0, min(1, k - 1)
     if unl > 0:
         m = rng.random_sample(n) < unl
         y = y.copy()
@@ -45,7 +55,7 @@ class C19(Check):
             "answers must equal them. A state "
             "is (learning configuration class, sequence of call kinds with the numbers of classified samples); distinct_nontrivial counts "
             "distinct states after a call")
-    expected_probes = ["user_specified_range", "call_in_range", "call_partly_out", "all_out_refused", "unlabelled_set_aside", "test_data", "reclassified_earlier_data", "own_scaled_piece", "continued_learning", "same_array_evaluated_again", "large_grid_implementation_on_small_grids", "one_vs_others"]
+    expected_probes = ["user_specified_range", "call_in_range", "call_partly_out", "all_out_refused", "unlabelled_set_aside", "test_data", "reclassified_earlier_data", "own_scaled_piece", "continued_learning", "same_array_evaluated_again", "large_grid_implementation_on_small_grids", "one_vs_others", "whole_number_features"]
     assumptions = ["ties between maximal densities accept any maximiser (tolerance 1e-9 relative on the densities)",
                    "the in-range test is the library's documented one on the scaled coordinates: 0.0049 <= s <= 0.9951"]
 
@@ -67,6 +77,7 @@ class C19(Check):
         # the size threshold between the small-grid and the large-grid implementations (200 points) is far above the grids of a
         # short run: in a third of the runs it is moved through the guarded hook so that learning and every later
         # evaluation go through the large-grid code on small grids
+        cfg["lattice"] = stream(rk, "lattice").choice([None, None, None, None, None, 4, 8, 10])
         cfg["threshold"] = stream(rk, "threshold").choice([None, None, None, None, 1, 6, 20])
         o = stream(rk, "ops")
         ops = []
@@ -82,6 +93,8 @@ class C19(Check):
             n = copy.deepcopy(s); n["config"]["user_range"] = None; yield n
         if c.get("threshold") is not None:
             n = copy.deepcopy(s); n["config"]["threshold"] = None; yield n
+        if c.get("lattice") is not None:
+            n = copy.deepcopy(s); n["config"]["lattice"] = None; yield n
         for key, v in (("unl", 0.0), ("split", 1.0), ("shuffle", False), ("even", False), ("learn", "standard"), ("one_vs_others", False),
                        ("lmax", 2), ("k", 2), ("n", 30), ("masslumping", True), ("lambd", 0.0)):
             if c[key] != v:
@@ -143,7 +156,9 @@ class C19(Check):
         c = sched["config"]
         sig = {"learn": c["learn"], "one_vs_others": c["one_vs_others"], "threshold_moved": c.get("threshold") is not None}
         ctx.exc_sig = dict(sig)
-        X, y, cent = make_data(c["data_seed"], c["n"], c["dim"], c["k"], unl=c["unl"])
+        X, y, cent = make_data(c["data_seed"], c["n"], c["dim"], c["k"], unl=c["unl"], lattice=c.get("lattice"), learn=True)
+        if c.get("lattice"):
+            ctx.probe("whole_number_features")
         if len(set(int(v) for v in y if v >= 0)) < 2:
             raise Excluded("fewer than two classes drawn")
         lab = X[y >= 0]
@@ -244,7 +259,7 @@ class C19(Check):
         for (kind, where, dseed, m) in sched["ops"]:
             ctx.step()
             spread, shift, unl = {"in": (1.0, 0.0, 0.0), "partly": (1.6, -0.2, 0.0), "out": (1.0, 50.0, 0.0), "unl": (1.0, 0.0, 0.4)}[where]
-            Xt, yt, _ = make_data(dseed, m, c["dim"], c["k"], spread=spread, shift=shift, unl=unl, centres=cent)
+            Xt, yt, _ = make_data(dseed, m, c["dim"], c["k"], spread=spread, shift=shift, unl=unl, centres=cent, lattice=c.get("lattice"))
             S, inr = expected(Xt)
             ctx.ev(kind, where, int(inr.sum()), m)
             if kind == "continue":
